@@ -75,7 +75,8 @@ deriving Repr, DecidableEq
 structure SessParams where
   localAs   : Nat                  -- the configured (true) local AS
   peerAs    : Nat                  -- the peer's true AS
-  asn4      : Bool                 -- both OPENs carry the 4-byte AS capability
+  sentAsn4  : Bool                 -- our OPEN carries the 4-byte AS capability
+  asn4      : Bool                 -- both OPENs carry it (4-byte AS numbers on the wire)
   apSend    : List (Nat × Nat)     -- families for which we send path identifiers (RFC 7911)
   extnh     : List (Nat × Nat)     -- families for which RFC 8950 was negotiated
   msgSize   : Nat                  -- 4096 | 65535
@@ -91,9 +92,10 @@ def paramsOf (p : SessParams) : Params :=
 
 /-! ### negotiated view of the AS numbers (`Negotiated._negotiate`) -/
 
-/-- `self.local_as = self.sent_open.asn`: the 2-byte field of the OPEN we sent, i.e. AS_TRANS for a
-    4-byte local AS (finding F4: never corrected from our own ASN4 capability). -/
-def negLocalAs (p : SessParams) : Nat := if p.localAs > asnMax2 then exaAsTrans else p.localAs
+/-- `local_as`: the AS of the ASN4 capability we sent (the true one), else the 2-byte field of our
+    OPEN, i.e. AS_TRANS for a 4-byte AS (finding F4, repaired by 000775c for the first case). -/
+def negLocalAs (p : SessParams) : Nat :=
+  if p.sentAsn4 then p.localAs else if p.localAs > asnMax2 then exaAsTrans else p.localAs
 
 /-- `peer_as` is read from the peer's ASN4 capability only when 4-byte AS was negotiated. -/
 def negPeerAs (p : SessParams) : Nat :=
@@ -248,6 +250,11 @@ def packCode (p : SessParams) (r : RouteReq) (nh : Bytes) (c : Nat) : Bytes :=
       else []
     | some a => if c = 5 && !(sameAs p) then [] else packGiven p a         -- skip LOCAL_PREF when left != right
 
+/-- `AS2Path.make_aspath([SEQUENCE([local_asn])])` without `asn4=True` packs 2-octet AS numbers at
+    once: `struct.error` for a local AS above 65535 on an external session when no as-path was given. -/
+def defaultPathRaises (p : SessParams) (r : RouteReq) : Bool :=
+  !defaultPathAsn4 && (given r.attrs 2).isNone && !(sameAs p) && isBig (negLocalAs p)
+
 /-- The codes `sorted(alls)` can contain for a static route of `ReqAttr` keywords. -/
 def codeOrder : List Nat := [1, 2, 3, 4, 5, 6, 7, 8, 9, 10, 16, 32]
 
@@ -312,15 +319,16 @@ def encodeExa (p : SessParams) (r : RouteReq) : Out :=
   | none => .raised
   | some nh =>
     let attr := attrBytes p r nh
-    if p.msgSize < 23 + attr.length then .nothing               -- msg_size < 0
+    if defaultPathRaises p r then .raised                       -- struct.error inside pack_attribute
+    else if p.msgSize < 23 + attr.length then .nothing          -- msg_size < 0
     else if p.msgSize - 23 - attr.length = 0 then .nothing      -- msg_size == 0
     else if classic r nh then
       if (packNlri p r).length ≤ p.msgSize - 23 - attr.length then
         .sent (be16 0 ++ ([] ++ (be16 attr.length ++ (attr ++ packNlri p r))))
       else .nothing
     else
-      -- _attr_len(len(header) + len(nlri)) > maximum  → RuntimeError
-      if (mpPayload p r nh).length + (if (mpPayload p r nh).length > 255 then 4 else 3) > p.msgSize - 23 - attr.length then .raised
+      -- _attr_len(len(header) + len(nlri)) > maximum → the prefix is left out, nothing remains to send
+      if (mpPayload p r nh).length + (if (mpPayload p r nh).length > 255 then 4 else 3) > p.msgSize - 23 - attr.length then .nothing
       else .sent (be16 0 ++ ([] ++ (be16 (attr ++ mpReach p r nh).length ++ ((attr ++ mpReach p r nh) ++ []))))
 
 /-! ### what a request must look like to be a route of the grammar (the hypotheses of the theorems) -/
@@ -362,10 +370,15 @@ def WFReq (p : SessParams) (r : RouteReq) : Prop :=
   WFNlri r.afi r.safi (apSends p r) false (wantNlri p r) ∧
   WFNh r.nexthop ∧ (∀ a ∈ r.attrs, WFReqAttr a)
 
-/-- A session two OPENs can produce: AS numbers of 32 bits, the reserved AS_TRANS is nobody's AS,
-    4096 ≤ message size ≤ 65535, addresses of 4 / 16 bytes. -/
+/-- A session two OPENs can produce: AS numbers of 32 bits, the reserved AS_TRANS is not our AS,
+    a speaker whose AS needs four octets announces the 4-octet capability (RFC 6793: otherwise nothing
+    on the wire carries its number), message size at most 65535, addresses of 4 / 16 bytes. -/
 def WFSess (p : SessParams) : Prop :=
-  U32 p.localAs ∧ p.localAs ≠ 23456 ∧ p.msgSize ≤ 65535 ∧
+  U32 p.localAs ∧ p.localAs ≠ 23456 ∧
+  (p.asn4 = true → p.sentAsn4 = true) ∧
+  (p.localAs > 65535 → p.sentAsn4 = true) ∧
+  (p.peerAs > 65535 → p.sentAsn4 = true → p.asn4 = true) ∧
+  p.msgSize ≤ 65535 ∧
   (p.localAddr.length = 4 ∨ p.localAddr.length = 16) ∧ WFBytes p.localAddr ∧
   p.routerId.length = 4 ∧ WFBytes p.routerId ∧
   (∀ ll, p.linkLocal = some ll → ll.length = 16)
